@@ -3,13 +3,13 @@ impl TimeoutData {
     pub closed spec fn dl(&self) -> Instant { self.deadline }
     pub closed spec fn tok(&self) -> Token { self.token }
     pub closed spec fn ctr(&self) -> int { self.counter as int }
-    pub closed spec fn mk(deadline: Instant, token: Token, counter: int) -> TimeoutData {
-        TimeoutData { deadline, token, counter: counter as u32 }
+    /// x is the entry (deadline, token, counter) -- said without naming the counter's machine type
+    pub closed spec fn is_entry(&self, deadline: Instant, token: Token, counter: int) -> bool {
+        self.deadline == deadline && self.token == token && self.counter as int == counter
     }
-    pub broadcast proof fn lemma_mk(deadline: Instant, token: Token, counter: int)
-        requires 0 <= counter <= u32::MAX,
-        ensures (#[trigger] Self::mk(deadline, token, counter)).dl() == deadline, Self::mk(deadline, token, counter).tok() == token,
-                Self::mk(deadline, token, counter).ctr() == counter,
+    pub broadcast proof fn lemma_is_entry(x: TimeoutData, deadline: Instant, token: Token, counter: int)
+        requires #[trigger] x.is_entry(deadline, token, counter),
+        ensures x.dl() == deadline, x.tok() == token, x.ctr() == counter,
     {}
     /// nanosecond view of the deadline
     pub open spec fn ns(&self) -> int { nanos(self.dl()) }
@@ -37,6 +37,10 @@ impl TimerWheel {
     pub open spec fn uniq(&self) -> bool {
         forall|x: TimeoutData, y: TimeoutData| #![trigger self@.count(x), self@.count(y)] self@.count(x) > 0 && self@.count(y) > 0 && x.ctr() == y.ctr() ==> x == y && self@.count(x) == 1
     }
+    /// every counter in the heap was handed out before: the next one handed out is fresh
+    pub open spec fn below(&self) -> bool {
+        forall|x: TimeoutData| #[trigger] self@.count(x) > 0 ==> x.ctr() < self.next_counter()
+    }
     /// x is an entry with the earliest deadline
     pub open spec fn is_earliest(&self, x: TimeoutData) -> bool {
         self@.count(x) > 0 && forall|y: TimeoutData| self@.count(y) > 0 ==> x.ns() <= y.ns()
@@ -58,8 +62,8 @@ pub broadcast proof fn lemma_max_is_earliest(m: Multiset<TimeoutData>, x: Timeou
 // must-call witnesses for the two operations a Timer performs on the SHARED wheel (which it only ever sees through a
 // RefCell borrow, i.e. as an arbitrary value): produced by the postconditions of insert / cancel -- opaque, so a caller
 // can establish them only by making the call.
-#[verifier::opaque] pub closed spec fn w_wheel_inserted(counter: u32, deadline: Instant, token: Token) -> bool { true }
-#[verifier::opaque] pub closed spec fn w_wheel_cancelled(counter: u32) -> bool { true }
+#[verifier::opaque] pub closed spec fn w_wheel_inserted(counter: int, deadline: Instant, token: Token) -> bool { true }
+#[verifier::opaque] pub closed spec fn w_wheel_cancelled(counter: int) -> bool { true }
 //@ endregion
 //@ open src/sources/timer.rs / impl TimerWheel
 //@ item src/sources/timer.rs / impl TimerWheel / fn new props=C05 ret=r
@@ -67,24 +71,48 @@ pub broadcast proof fn lemma_max_is_earliest(m: Multiset<TimeoutData>, x: Timeou
         ensures r@ == Multiset::<TimeoutData>::empty(), r.next_counter() == 0, r.uniq(),
 //@ enditem
 //@ item src/sources/timer.rs / impl TimerWheel / fn insert props=C05 ret=r
+//@ rw R24 * <<self .counter .checked_add(1) .expect("timer arming counter overflow")>> => <<crate::ext::expect_some_or_diverge(self.counter.checked_add(1), "timer arming counter overflow")>>
 //@ spec
-        // stated bound: fewer than 2^32 armings per loop
-        requires old(self).next_counter() < u32::MAX,
+        // C05 (from the property: cancel is final, exactly once per arming -- every arming has an identity of its own):
+        // NO bound on the number of armings. (With the u32 counter and `+= 1` this was defect F9: the possible overflow is
+        // the failing obligation. R24: `.expect(..)` on the checked increment does not return on overflow.)
         ensures
             r == old(self).next_counter(),
             final(self).next_counter() == old(self).next_counter() + 1,
-            final(self)@ == old(self)@.insert(TimeoutData::mk(deadline, token, r as int)),
-            w_wheel_inserted(r, deadline, token),
+            exists|x: TimeoutData| #[trigger] x.is_entry(deadline, token, r as int) && final(self)@ == old(self)@.insert(x),
+            w_wheel_inserted(r as int, deadline, token),
+            // the counter handed out is fresh: no entry of the heap carries it, and that stays so
+            (old(self).uniq() && old(self).below()) ==> (final(self).uniq() && final(self).below()),
+//@ after <<let ret = self.counter;>>
+        proof {
+            let x = TimeoutData { deadline: deadline, token: token, counter: old(self).counter };
+            assert(self@ == old(self)@.insert(x));
+            assert(x.is_entry(deadline, token, ret as int));
+            if old(self).uniq() && old(self).below() {
+                assert(old(self)@.count(x) == 0);
+                assert forall|y: TimeoutData| #[trigger] self@.count(y) > 0 implies y.ctr() < old(self).next_counter() + 1 by {
+                    if y != x { assert(old(self)@.count(y) > 0); }
+                }
+                assert forall|a: TimeoutData, b: TimeoutData| #![trigger self@.count(a), self@.count(b)] self@.count(a) > 0 && self@.count(b) > 0 && a.ctr() == b.ctr() implies a == b && self@.count(a) == 1 by {
+                    if a != x { assert(old(self)@.count(a) > 0); }
+                    if b != x { assert(old(self)@.count(b) > 0); }
+                }
+            }
+        }
 //@ entry
-        proof { broadcast use TimeoutData::lemma_mk; reveal(w_wheel_inserted); }
+        proof { reveal(w_wheel_inserted); }
 //@ enditem
 //@ item src/sources/timer.rs / impl TimerWheel / fn insert_reuse props=C05
 //@ spec
         ensures
             final(self).next_counter() == old(self).next_counter(),
-            final(self)@ == old(self)@.insert(TimeoutData::mk(deadline, token, counter as int)),
-//@ entry
-        proof { broadcast use TimeoutData::lemma_mk; }
+            exists|x: TimeoutData| #[trigger] x.is_entry(deadline, token, counter as int) && final(self)@ == old(self)@.insert(x),
+//@ exit
+        proof {
+            let x = TimeoutData { deadline: deadline, token: token, counter: counter };
+            assert(x.is_entry(deadline, token, counter as int));
+            assert(self@ == old(self)@.insert(x));
+        }
 //@ enditem
 //@ item src/sources/timer.rs / impl TimerWheel / fn cancel props=C05,C12
 //@ entry
@@ -96,7 +124,7 @@ pub broadcast proof fn lemma_max_is_earliest(m: Multiset<TimeoutData>, x: Timeou
         }
 //@ spec
         ensures
-            w_wheel_cancelled(counter),
+            w_wheel_cancelled(counter as int),
             // entries of other timers are never touched, nothing is added
             forall|x: TimeoutData| x.ctr() != counter ==> #[trigger] final(self)@.count(x) == old(self)@.count(x),
             forall|x: TimeoutData| #[trigger] final(self)@.count(x) <= old(self)@.count(x),
